@@ -2,8 +2,8 @@
 from ..rules import folds
 from .common import declare
 
-RULES = ['MIRROR', 'ACCRUE-DECAY-SIG', 'DECAY-UNREACHABLE', 'FOLD-DERIVE', 'WINDOW-FIFO', 'DECAY-CONSERVES', 'FULL-POSITIONAL', 'AGG-TABLE']
-FLOORS = {'MIRROR': 11, 'ACCRUE-DECAY-SIG': 6, 'DECAY-UNREACHABLE': 3, 'FOLD-DERIVE': 14, 'WINDOW-FIFO': 8, 'DECAY-CONSERVES': 7, 'AGG-TABLE': 19}
+RULES = ['MIRROR', 'ACCRUE-DECAY-SIG', 'DECAY-UNREACHABLE', 'FOLD-DERIVE', 'WINDOW-FIFO', 'DECAY-CONSERVES', 'FULL-POSITIONAL', 'AGG-TABLE', 'CTOR-COPY', 'ACC-CONTRACT']
+FLOORS = {'MIRROR': 11, 'ACCRUE-DECAY-SIG': 6, 'DECAY-UNREACHABLE': 3, 'FOLD-DERIVE': 14, 'WINDOW-FIFO': 8, 'DECAY-CONSERVES': 7, 'AGG-TABLE': 19, 'CTOR-COPY': 3, 'ACC-CONTRACT': 2}
 
 META = {
     'level': "Static analysis of accrual/decay structure: for each of 11 aggregation classes on_old is the algebraic inverse of on_new "
@@ -36,3 +36,8 @@ def run(ctx, R):
     R.run(folds.check_excess_accounting, ctx, R)
     R.run(folds.check_full_positional, ctx, R)
     R.run(folds.check_agg_table, ctx, R)
+    # a window derived from another one (operators, column selection) keeps its extent and its carried-over rows (start=)
+    R.run(folds.check_ctor_copy, ctx, R)
+    # the window lives in the state of core.accumulate: stored before the result is delivered
+    R.run(folds.check_acc_contract, ctx, R)
+META['level'] += ' CTOR-COPY: a window object derived from another keeps n / value / start / with_state; ACC-CONTRACT: the accumulate node commits the window state before it delivers the result.'
